@@ -703,23 +703,23 @@ def parse_vc(path):
                 elif s2.startswith('#skip-before '):
                     # R11: `#skip-before /regex/ = statement(s)`: everything of the body IN FRONT OF the match is
                     # replaced by the given statement(s), which may only call assumed functions
-                    m2 = re.match(r'#skip-before\s+/(.+)/\s*=\s*(.+)$', s2)
+                    m2 = re.match(r'#skip-before\s+(?:sha=(\w+)\s+)?/(.+)/\s*=\s*(.+)$', s2)
                     if not m2:
-                        raise ExtractError(f'{path}: bad #skip-before (need `/regex/ = stmt`): {s2}')
-                    fn['skip_before'] = (m2.group(1), m2.group(2).strip())
+                        raise ExtractError(f'{path}: bad #skip-before (need `[sha=<hash>] /regex/ = stmt`): {s2}')
+                    fn['skip_before'] = (m2.group(2), m2.group(3).strip(), m2.group(1))
                 elif s2.startswith('#truncate-before '):
                     # R9 variant: cut right BEFORE the first match of the regex
-                    m2 = re.match(r'#truncate-before\s+/(.+)/\s*=\s*(.+)$', s2)
+                    m2 = re.match(r'#truncate-before\s+(?:sha=(\w+)\s+)?/(.+)/\s*=\s*(.+)$', s2)
                     if not m2:
-                        raise ExtractError(f'{path}: bad #truncate-before (need `/regex/ = expr`): {s2}')
-                    fn['truncate'] = (r'(?s)\A.*?(?=' + m2.group(1) + ')', m2.group(2).strip())
+                        raise ExtractError(f'{path}: bad #truncate-before (need `[sha=<hash>] /regex/ = expr`): {s2}')
+                    fn['truncate'] = (r'(?s)\A.*?(?=' + m2.group(2) + ')', m2.group(3).strip(), m2.group(1))
                 elif s2.startswith('#truncate-after '):
                     # R9: `#truncate-after /regex/ = tail-expression`: everything of the body BEHIND the match is
                     # replaced by one call to an unconstrained assumed function (only a prefix is verified)
-                    m2 = re.match(r'#truncate-after\s+/(.+)/\s*=\s*(.+)$', s2)
+                    m2 = re.match(r'#truncate-after\s+(?:sha=(\w+)\s+)?/(.+)/\s*=\s*(.+)$', s2)
                     if not m2:
-                        raise ExtractError(f'{path}: bad #truncate-after (need `/regex/ = expr`): {s2}')
-                    fn['truncate'] = (m2.group(1), m2.group(2).strip())
+                        raise ExtractError(f'{path}: bad #truncate-after (need `[sha=<hash>] /regex/ = expr`): {s2}')
+                    fn['truncate'] = (m2.group(2), m2.group(3).strip(), m2.group(1))
                 elif s2.startswith('#wrap-postfix '):
                     # R7w: `#wrap-postfix sha=<hash> /receiver-start-regex/ /postfix-regex/ = FUNC`: the method-chain
                     # suffix matched by the second regex (compact text, pinned by hash), applied to the bracket-balanced
@@ -846,17 +846,11 @@ def extract_fn(repo, spec, features):
         # written: any edit inside it makes the unit UNDECIDED (never an alarm, never a silent pass)
         have_sha = hashlib.sha256(norm(T[a:e]).encode()).hexdigest()[:16]
         if have_sha != want_sha:
-            # edited since it was reviewed: still acceptable if a token scan finds nothing that can
-            # mutate (the abstraction only assumes "reads self, may fail"); otherwise UNDECIDED
-            muts = [t.text for t in T[a:e] if t.kind == 'ident' and t.text in (
-                'drain', 'clear', 'push', 'push_back', 'push_front', 'pop', 'pop_back', 'pop_front', 'remove',
-                'insert', 'take', 'swap', 'truncate', 'retain', 'mut', 'iter_mut', 'get_mut', 'append', 'extend',
-                'replace', 'set', 'split_off', 'entry', 'unsafe')]
-            if muts or re.search(r'[^=!<>]=[^=>]', orig):
-                raise ExtractError(f'abstracted initialiser of `{var}` in {spec["name"]} changed '
-                                   f'(sha {have_sha}, reviewed {want_sha}) and may now mutate ({sorted(set(muts))}): '
-                                   f'read-only abstraction no longer justified')
-            log.append({'step': 'R6', 'note': f'initialiser of {var} edited since review (sha {have_sha}); token scan finds no mutation'})
+            # edited since it was reviewed: the stand-in's assumed contract describes the REVIEWED expression, so any
+            # change makes the unit UNDECIDED (an earlier version tolerated edits without mutating tokens; that was only
+            # sound for stand-ins without postconditions)
+            raise ExtractError(f'abstracted initialiser of `{var}` in {spec["name"]} changed '
+                               f'(sha {have_sha}, reviewed {want_sha}): the assumed contract no longer describes it')
         if re.search(r'&mut\s+self|self\.\w+\s*=[^=]', orig):
             raise ExtractError(f'abstracted initialiser of {var} mutates self: refused')
         edits.add(T[a].start, T[e].start, ' ' + repl, 'rewrite', 'R6 abstract')
@@ -934,7 +928,7 @@ def extract_fn(repo, spec, features):
     # `self` and the parameters: whatever the dropped suffix does is allowed.  Only properties of the PREFIX
     # (early-return guards) can be proved this way; logged with the number of tokens dropped.
     if spec.get('truncate'):
-        rx, tail = spec['truncate']
+        rx, tail, pin = spec['truncate']
         btxt_lo = T[bo].end
         btxt = sf.text[btxt_lo:T[bc].start]
         ms = list(re.finditer(rx, btxt))
@@ -953,6 +947,11 @@ def extract_fn(repo, spec, features):
         if depth != 0:
             raise ExtractError(f'R9 refused: /{rx}/ does not end at the top level of the body of {spec["name"]}')
         ndrop = sum(1 for j in range(bo + 1, bc) if T[j].start >= cut)
+        if pin:
+            # the assumed tail call has a postcondition: it describes the REVIEWED suffix, so the suffix is pinned by hash
+            have = hashlib.sha256(norm([T[j] for j in range(bo + 1, bc) if T[j].start >= cut and alive(T[j])]).encode()).hexdigest()[:16]
+            if have != pin:
+                raise ExtractError(f'abstracted suffix of {spec["name"]} changed (sha {have}, reviewed {pin}): the assumed contract no longer describes it')
         edits.add(cut, T[bc].start, '\n        ' + tail + '\n    ', 'rewrite', 'R9 truncate')
         dropped.append((cut, T[bc].start))
         log.append({'step': 'R9', 'line': sf.line_of(cut), 'dropped_tokens': ndrop,
@@ -963,7 +962,7 @@ def extract_fn(repo, spec, features):
     # `self`, the parameters and the locals the suffix uses.  Only properties of the SUFFIX relative to the state
     # those assumed calls leave behind are proved; logged with the number of tokens dropped.
     if spec.get('skip_before'):
-        rx, head = spec['skip_before']
+        rx, head, pin = spec['skip_before']
         btxt_lo = T[bo].end
         btxt = sf.text[btxt_lo:T[bc].start]
         ms = list(re.finditer(rx, btxt))
@@ -981,6 +980,10 @@ def extract_fn(repo, spec, features):
         if depth != 0:
             raise ExtractError(f'R11 refused: /{rx}/ does not start at the top level of the body of {spec["name"]}')
         ndrop = sum(1 for j in range(bo + 1, bc) if T[j].start < cut)
+        if pin:
+            have = hashlib.sha256(norm([T[j] for j in range(bo + 1, bc) if T[j].start < cut and alive(T[j])]).encode()).hexdigest()[:16]
+            if have != pin:
+                raise ExtractError(f'abstracted prefix of {spec["name"]} changed (sha {have}, reviewed {pin}): the assumed contract no longer describes it')
         edits.add(btxt_lo, cut, '\n        ' + head + '\n        ', 'rewrite', 'R11 skip')
         dropped.append((btxt_lo, cut))
         log.append({'step': 'R11', 'line': sf.line_of(cut), 'dropped_tokens': ndrop,
@@ -1136,6 +1139,22 @@ def extract_fn(repo, spec, features):
         edits.add(T[e - 1].end, T[e - 1].end, f'{GB}){GE}', 'ghost', 'ret name')
     # (an empty marker pair is emitted even without a contract: it anchors the vacuity canary)
     edits.add(T[bo].start, T[bo].start, f'\n{GB}\n{spec["spec"]}\n{GE}\n', 'ghost', 'spec')
+
+    # ---- R12: `mut self` receiver (by value).  Verus rejects it; `fn f(mut self, ..) { B }` is the same function as
+    # `fn f(self, ..) { let mut verif_self = self; B[self := verif_self] }`.  In the spec, `self` keeps meaning the
+    # value at entry.
+    for k in range(fn_kw, bo):
+        if is_id(T[k], 'mut') and is_id(T[k + 1], 'self') and not is_p(T[k - 1], '&') and alive(T[k]):
+            edits.add(T[k].start, T[k + 1].start, '', 'rewrite', 'R12 mut self')
+            edits.add(T[bo].end, T[bo].end, ' let mut verif_self = self; ', 'rewrite', 'R12 mut self')
+            n_self = 0
+            for j in range(bo + 1, bc):
+                if is_id(T[j], 'self') and alive(T[j]):
+                    edits.add(T[j].start, T[j].end, 'verif_self', 'rewrite', 'R12 mut self')
+                    n_self += 1
+            log.append({'step': 'R12', 'line': sf.line_of(T[k].start), 'before': 'fn f(mut self, ..) { B }',
+                        'after': f'fn f(self, ..) {{ let mut verif_self = self; B }} ({n_self} occurrences of `self` renamed)'})
+            break
 
     # ---- R2: `for (i, x) in E.iter().enumerate() { B }`
     #        ->  `let mut i = 0; while i < E.len() { let x = &E[i]; B i += 1; }`
